@@ -6,7 +6,7 @@ UNIT = {
                   {'file': 'riscv_analysis/src/gen/function_annotations.rs', 'item': 'impl FunctionMarkupPass :: fn mark_reachable'}],
     'obligations': [
         {'id': 'term_n.finishes', 'recipe': ['term-search'], 'props': ['C06'], 'kind': 'bounded', 'timeout': 1500,
-         'bound': '806 programs x 4 runs (the passes iterate hash sets): 6 hand-written programs (recursion, mutual recursion, a loop around a call, '
+         'bound': '809 programs x 4 runs (the passes iterate hash sets): 9 hand-written programs (a `.macro` that is never closed, recursion, mutual recursion, a loop around a call, '
                   'two labels on one function, a one-instruction loop, an interrupt handler) and every program of 2 or 3 functions with bodies from a pool '
                   'of 5 (return; jump into a shared tail; branch into it with an own return; branch and jump into it; fall through into the next '
                   'function) called from main in every order; 10 s per run',
